@@ -879,8 +879,12 @@ def rule_filterimpl(ctx):
                                 code = hi.a[0]
                                 good_names = code.op == "attr" and code.a[1] == "__code__" and code.a[0] is fn_t
                                 name_src = "code"
-                    if member and name_src is None:
+                    one_shot = any(c2.a[2].op == "comp" and c2.a[2].a[0] == "gen" for c2 in member)
+                    if member and name_src is None and not one_shot:
                         raise AnalysisError("C03.FILTERIMPL", "filter_kwargs: the set of accepted names (%s) is not built in a form this rule reads" % tm.show(member[0].a[2], 3))
+                    if one_shot:
+                        yield ob("C03.FILTERIMPL", f, "util.filter_kwargs:filter", False, "the accepted names are a generator expression tested with `in` once per keyword: the first test consumes it up to the name found, so later keywords are dropped depending on their order", node=node)
+                        continue
                     extra_conds = [c2 for c2 in conds if c2 not in member]
                     what = "a keyword is kept iff its name is %s, with its own value" % ("a keyword-passable parameter of inspect.signature(callee)" if name_src == "signature" else "in co_varnames[:co_argcount] of the callee")
                     ctx.cache["filter_name_source"] = name_src
